@@ -220,3 +220,266 @@ def c12_bm25_bound(rep):
     else:
         rep.inconclusive("bm25 bound", "unknown")
     rep.sample({"function": "bm25", "obligation": "score bounded by (max weight, min length)"})
+
+
+# ------------------------------------------------------------------ E2: the length byte (what block_min_length / min_length are stored as)
+def rp_lengthbyte(a, b):
+    """replay on the real functions: a <= b"""
+    from whoosh.util.numeric import length_to_byte, byte_to_length
+    la, lb = length_to_byte(a), length_to_byte(b)
+    if not (0 <= la <= 255 and 0 <= lb <= 255):
+        return "length_to_byte(%d) = %d, length_to_byte(%d) = %d: not a byte" % (a, la, b, lb)
+    if a <= b and la > lb:
+        return "length_to_byte is not monotone: %d -> %d but %d -> %d" % (a, la, b, lb)
+    if a <= b and byte_to_length(la) > byte_to_length(lb):
+        return "the stored length is not monotone: %d -> %d but %d -> %d" % (a, byte_to_length(la), b, byte_to_length(lb))
+    if length_to_byte(byte_to_length(la)) != la:
+        return "length_to_byte(byte_to_length(%d)) = %d" % (la, length_to_byte(byte_to_length(la)))
+    if a < 106374 and byte_to_length(la) < a:
+        return "stored length %d of %d is smaller than the length" % (byte_to_length(la), a)
+    return None
+
+
+@smtq(bounds="all field lengths 0 <= a <= b (unbounded mathematical integers, linear integer arithmetic); the 256-entry table read from the live module",
+      funcs=["whoosh.util.numeric.length_to_byte", "whoosh.util.numeric.byte_to_length"],
+      outside="negative lengths (never produced by the writer)",
+      stubs=["bisect_left on the concrete table -> counting sum (pybmc builtin); byte_to_length (array.__getitem__) -> ite chain over the same table"])
+def c12_lengthbyte(rep):
+    """A block's (and a term's) minimum length is stored as length_to_byte(min of the lengths) while each document's length is stored
+    as length_to_byte(its length); the quality bound score(max weight, stored min length) is an upper bound of score(weight, stored
+    length) only if the byte encoding and its decoding are monotone - decided here for every pair of lengths."""
+    from vk.pybmc import Engine, Unsupported
+    from whoosh.util import numeric as N
+    table = [int(x) for x in N._length_byte_cache]
+    if len(table) != 256 or [N.byte_to_length(i) for i in range(256)] != table:
+        rep.inconclusive("length byte", "byte_to_length is no longer the table lookup the encoding assumes")
+        return
+    for a_, b_ in [(0, 0), (0, 1), (10, 11), (11, 12), (106373, 106374), (106374, 2 ** 31 - 1), (5, 300), (254, 255)]:
+        r = rp_lengthbyte(a_, b_)
+        rep.queries += 1
+        if r is not None:
+            rep.violation("length byte vector", "rp_lengthbyte(%d, %d)" % (a_, b_), r)
+            return
+    eng = Engine(width=0, mode="fork", timeout_ms=60000)      # width 0: mathematical integers (Python int), linear arithmetic
+    a = eng.sym_int("a")
+    b = eng.sym_int("b")
+    dom = [a >= 0]
+    try:
+        paths = list(eng.paths(N.length_to_byte, [a], pre=dom))
+    except Unsupported as e:
+        rep.inconclusive("length byte", "pybmc: %s" % e)
+        return
+    side = [o for _, o in eng.obligations]
+    R = None
+    for pc, r in reversed(paths):
+        t = eng.to_term(r)
+        R = t if R is None else z3.If(z3.And(*pc[len(dom):]) if len(pc) > len(dom) else z3.BoolVal(True), t, R)
+
+    def enc(x):
+        return z3.substitute(R, (a, x))
+
+    def dec(k):
+        out = eng.to_term(table[255])
+        for i in range(254, -1, -1):
+            out = z3.If(k == i, eng.to_term(table[i]), out)
+        return out
+    domab = dom + [b >= 0, a <= b]
+    obligations = [
+        ("0 <= length_to_byte(a) <= 255", dom, z3.Or(enc(a) < 0, enc(a) > 255)),
+        ("length_to_byte monotone", domab, enc(a) > enc(b)),
+        ("byte_to_length(length_to_byte(.)) monotone", domab, dec(enc(a)) > dec(enc(b))),
+        ("length_to_byte(byte_to_length(length_to_byte(a))) == length_to_byte(a)", dom, enc(dec(enc(a))) != enc(a)),
+        ("stored length >= length below the cap", dom + [a < 106374], dec(enc(a)) < a),
+    ]
+    if side:
+        obligations.append(("no-overflow / bounds obligations of the encoding", dom, z3.Or(*side)))
+    bad = 0
+    for name, pre, neg in obligations:
+        r = eng.check(*(list(pre) + [neg]))
+        if r == z3.unsat:
+            continue
+        bad += 1
+        if r == z3.sat:
+            m = eng.last_model
+            av = m.eval(a, model_completion=True).as_long()
+            bv = m.eval(b, model_completion=True).as_long()
+            rep.violation("length byte: " + name, "rp_lengthbyte(%d, %d)" % (av, max(av, bv)))
+        else:
+            rep.inconclusive("length byte: " + name, "unknown")
+    # vacuity guard: strict monotonicity is false (the encoding is lossy), so its negation must be satisfiable
+    r = eng.check(*(domab + [a < b, enc(a) == enc(b)]))
+    if r != z3.sat:
+        rep.inconclusive("length byte vacuity guard", "expected sat (two lengths sharing a byte), got %s" % r)
+        bad += 1
+    rep.absorb(eng)
+    if not bad:
+        rep.held("length_to_byte/byte_to_length: byte range, monotone encoding, monotone stored length, idempotence, stored >= real below the cap: "
+                 "%d encoder paths, %d obligations" % (len(paths), len(obligations)))
+    rep.sample({"function": "length_to_byte", "paths": len(paths), "obligations": len(obligations)})
+
+
+# ------------------------------------------------------------------ E3: the real scorer objects on solver terms
+class _StubTI(object):
+    def __init__(self, maxw, minl):
+        self.maxw, self.minl = maxw, minl
+
+    def max_weight(self):
+        return self.maxw
+
+    def min_length(self):
+        return self.minl
+
+
+class _StubField(object):
+    scorable = True
+
+
+class _StubParent(object):
+    def __init__(self, idf, avgfl):
+        self._idf, self._avgfl = idf, avgfl
+
+    def idf(self, fieldname, text):
+        return self._idf
+
+    def avg_field_length(self, fieldname):
+        return self._avgfl
+
+
+class _StubSearcher(object):
+    def __init__(self, parent, ti, length):
+        self.schema = {"t": _StubField()}
+        self._parent, self._ti, self._len = parent, ti, length
+
+    def get_parent(self):
+        return self._parent
+
+    def term_info(self, fieldname, text):
+        return self._ti
+
+    def doc_field_length(self, docid, fieldname, default=0):
+        return self._len
+
+
+class _StubMatcher(object):
+    def __init__(self, w, bmw, bml):
+        self._w, self._bmw, self._bml = w, bmw, bml
+
+    def id(self):
+        return 0
+
+    def weight(self):
+        return self._w
+
+    def block_max_weight(self):
+        return self._bmw
+
+    def block_min_length(self):
+        return self._bml
+
+
+_MODELS = [("BM25F", lambda B, K1, B2: scoring.BM25F(B=B, K1=K1)), ("BM25F(t_B)", lambda B, K1, B2: scoring.BM25F(B=B, K1=K1, t_B=B2)),
+           ("TF_IDF", lambda B, K1, B2: scoring.TF_IDF()), ("Frequency", lambda B, K1, B2: scoring.Frequency())]
+
+
+def _scorer_terms(mi, idf, avgfl, B, K1, B2, w, ln, bmw, bml, maxw, minl):
+    parent = _StubParent(idf, avgfl)
+    s = _StubSearcher(parent, _StubTI(maxw, minl), ln)
+    sc = _MODELS[mi][1](B, K1, B2).scorer(s, "t", b"x")
+    m = _StubMatcher(w, bmw, bml)
+    return sc.supports_block_quality(), sc.score(m), sc.block_quality(m), sc.max_quality()
+
+
+def rp_scorer_bounds(mi, idf, avgfl, B, K1, B2, w, ln, bmw, bml, maxw, minl):
+    sup, score, bq, mq = _scorer_terms(mi, idf, avgfl, B, K1, B2, w, ln, bmw, bml, maxw, minl)
+    if sup and not (score <= bq + 1e-9 and bq <= mq + 1e-9):
+        return "%s scorer: score %r, block_quality %r, max_quality %r for weight %r <= %r <= %r, length %r >= %r >= %r" % (
+            _MODELS[mi][0], score, bq, mq, w, bmw, maxw, ln, bml, minl)
+    return None
+
+
+@smtq(bounds="the scorer objects BM25F().scorer / BM25F(t_B=..).scorer / TF_IDF().scorer / Frequency().scorer built by the real weighting classes over a stub searcher "
+             "whose statistics are z3 reals: all idf>0, avgfl>0, 0<=B,B2<=1, K1>=0, 0<w<=block max weight<=term max weight, length>=block min length>=term min length>=1",
+      funcs=["whoosh.scoring.BM25F.scorer", "whoosh.scoring.BM25FScorer", "whoosh.scoring.WeightLengthScorer.setup", "whoosh.scoring.WeightLengthScorer.score",
+             "whoosh.scoring.WeightLengthScorer.block_quality", "whoosh.scoring.TF_IDF.scorer", "whoosh.scoring.TF_IDFScorer", "whoosh.scoring.Frequency.scorer",
+             "whoosh.scoring.WeightScorer"],
+      outside="float rounding; PL2/DFree/ReverseWeighting (they report no quality support: checked); the statistics themselves (C10)",
+      stubs=["searcher/parent searcher/term info/matcher: plain objects returning z3 reals (any values within the stated order constraints); "
+             "'avg_field_length(..) or 1': the average is assumed non-zero"])
+def c12_scorer_bounds(rep):
+    """score(entry) <= block_quality() <= max_quality() for the scorer objects the shipped weighting models build, with every statistic a solver variable."""
+    import time
+
+    class _Truthy(z3.ArithRef):
+        def __bool__(self):
+            return True
+        __nonzero__ = __bool__
+    idf, avgfl, B, K1, B2, w, ln, bmw, bml, maxw, minl = z3.Reals("idf avgfl B K1 B2 w ln bmw bml maxw minl")
+    avg_t = z3.Real("avgfl")
+    avg_t.__class__ = _Truthy
+    dom = [idf > 0, avgfl > 0, B >= 0, B <= 1, B2 >= 0, B2 <= 1, K1 >= 0, w > 0, w <= bmw, bmw <= maxw, minl >= 1, bml >= minl, ln >= bml]
+    vs = (idf, avgfl, B, K1, B2, w, ln, bmw, bml, maxw, minl)
+    bad = 0
+    n = 0
+    for mi, (mname, _) in enumerate(_MODELS):
+        try:
+            sup, score, bq, mq = _scorer_terms(mi, idf, avg_t, B, K1, B2, w, ln, bmw, bml, maxw, minl)
+        except Exception as e:  # noqa
+            rep.inconclusive("scorer bounds " + mname, "the scorer could not be evaluated on solver terms: %s: %s" % (type(e).__name__, e))
+            bad += 1
+            continue
+        if sup is not True:
+            rep.inconclusive("scorer bounds " + mname, "supports_block_quality() = %r: the antecedent of the property does not hold, nothing to decide" % (sup,))
+            bad += 1
+            continue
+        for oname, neg in (("score <= block_quality", score > bq), ("block_quality <= max_quality", bq > mq)):
+            s = z3.Solver()
+            s.set("timeout", 60000)
+            s.add(*dom)
+            s.add(neg)
+            t0 = time.time()
+            r = s.check()
+            rep.queries += 1
+            rep.solver_s += time.time() - t0
+            n += 1
+            if r == z3.unsat:
+                continue
+            bad += 1
+            if r == z3.sat:
+                m = s.model()
+                rep.violation("%s: %s" % (mname, oname), "rp_scorer_bounds(%d, %s)" % (mi, ", ".join(repr(_val(m, x)) for x in vs)))
+            else:
+                rep.inconclusive("%s: %s" % (mname, oname), "unknown")
+    # vacuity guard: without the order constraint on the lengths the BM25F bound must fail
+    sup, score, bq, mq = _scorer_terms(0, idf, avg_t, B, K1, B2, w, ln, bmw, bml, maxw, minl)
+    s = z3.Solver()
+    s.set("timeout", 60000)
+    s.add(idf > 0, avgfl > 0, B > 0, B <= 1, K1 > 0, w > 0, w <= bmw, bmw <= maxw, minl >= 1, bml >= minl, ln >= 1, score > bq)
+    r = s.check()
+    rep.queries += 1
+    if r != z3.sat:
+        rep.inconclusive("scorer bounds vacuity guard", "expected sat when the entry may be shorter than the block minimum, got %s" % r)
+        bad += 1
+    # the models whose scores are not monotone must not claim support
+    for mname, mk in (("PL2", lambda: scoring.PL2()), ("DFree", lambda: scoring.DFree()), ("Reverse(BM25F)", lambda: scoring.ReverseWeighting(scoring.BM25F()))):
+        for cname, s_ in contexts().items():
+            if not cname.endswith("/BM25F"):
+                continue
+            sc = mk().scorer(s_, "t", b"alfa")
+            rep.queries += 1
+            if sc.supports_block_quality():
+                bad += 1
+                rep.violation("%s claims quality support" % mname, "rp_claims(%r)" % mname, "its bounds are not upper bounds")
+            break
+    if not bad:
+        rep.held("score <= block_quality <= max_quality for %d scorer classes built by the real weighting models (%d obligations); PL2/DFree/Reverse claim no support" % (len(_MODELS), n))
+    rep.sample({"scorers": [m_[0] for m_ in _MODELS], "obligations": n})
+
+
+def rp_claims(mname):
+    mk = {"PL2": lambda: scoring.PL2(), "DFree": lambda: scoring.DFree(), "Reverse(BM25F)": lambda: scoring.ReverseWeighting(scoring.BM25F())}[mname]
+    for cname, s_ in contexts().items():
+        sc = mk().scorer(s_, "t", b"alfa")
+        if sc.supports_block_quality():
+            m = query.Term("t", u"alfa").matcher(s_)
+            return "%s scorer claims quality support; max_quality %r, first score %r" % (mname, sc.max_quality(), sc.score(m))
+        return None
